@@ -85,20 +85,20 @@ func c01f(c *Ctx) {
 		bAlt := "(" + s.next + " == " + s.dest + ")"
 		var gotoD, termD, trueD, falseD []dnf
 		key := "proto/" + s.label
-		for _, ws := range writeSites(fn) {
+		for _, ws := range c.sitesOf(fn) {
 			blk := restrict(pc.canonOf(pc.At(ws.call.Block())), s.mode)
 			if len(blk.cs) == 0 && !blk.unknown {
 				continue // not reachable in this mode
 			}
 			switch {
 			case ws.isFmt && ws.format == "\tgoto %s_%d\n":
-				if len(ws.args) == 2 && c.term(fn, ws.args[1]) == s.dest {
-					c.Check(c.term(fn, ws.args[0]) == s.script, key+"/goto-prefix", c.W.Pos(ws.call.Pos()), "goto label is <script>_<dest>", "goto label prefix is "+c.term(fn, ws.args[0])+", expected the script name parameter")
+				if len(ws.argT) == 2 && ws.argT[1] == s.dest {
+					c.Check(ws.argT[0] == s.script, key+"/goto-prefix", c.W.Pos(ws.call.Pos()), "goto label is <script>_<dest>", "goto label prefix is "+ws.argT[0]+", expected the script name parameter")
 					gotoD = append(gotoD, blk)
 				}
 			case ws.konst && ws.format == "\treturn\n":
 				termD = append(termD, blk)
-			case ws.isFmt && ws.format == "\t%s\n" && len(ws.args) == 1 && strings.Contains(c.term(fn, ws.args[0]), "getTerminatorCommand"):
+			case ws.isFmt && ws.format == "\t%s\n" && len(ws.argT) == 1 && strings.Contains(ws.argT[0], "getTerminatorCommand"):
 				termD = append(termD, blk)
 			}
 		}
